@@ -738,6 +738,9 @@ def r_dirty(ctx, chk, funcs, rule='R-DIRTY'):
                         hi_ok = eng.prove_cmp(st, 'le' if m[3] else 'lt', row, m[2]) is True
                         if lo_ok and hi_ok:
                             covered = True
+                        elif isinstance(lines, NumV) and eng.prove_le(st, m[1], NumV(None, 0, 'u32')) is True and \
+                                eng.prove_le(st, lines, NumV(m[2].sym, m[2].k + (1 if m[3] else 0), m[2].ty)) is True:
+                            covered = True      # every row of the screen as it is now is marked
                 if not covered and seg['kind'] == 'backedge' and isinstance(cur_y, NumV) and eng.prove_cmp(st, 'eq', cur_y, row) is True:
                     covered = 'deferred'
                 if not covered and seg['kind'] == 'backedge' and isinstance(row, NumV) and row.sym is not None and row.k == 0:
